@@ -4,6 +4,7 @@ Layer B (oracle): write typed tables + CSVW metadata, load with csv2pandas, comp
 names / dtypes / values / nulls; date columns over composed CSVW formats."""
 import datetime as dt
 import itertools
+import datetime
 import json
 import os
 import shutil
@@ -166,6 +167,19 @@ def gen_table(rng):
                     txt.append('"' + v.replace('"', '""') + '"')
                 else:
                     txt.append(v)
+        elif rng.random() < 0.25:
+            # a plain date / datetime datatype with no format: the default ISO 8601 text
+            col['datatype'] = k
+            col['_pattern'] = None
+            for _ in range(nrows):
+                if rng.random() < null_p:
+                    vals.append(None)
+                    txt.append('')
+                else:
+                    t = datetime.datetime(rng.randint(1971, 2035), rng.randint(1, 12), rng.randint(1, 28),
+                                          *((rng.randrange(24), rng.randrange(60), rng.randrange(60)) if k == 'datetime' else ()))
+                    vals.append(t)
+                    txt.append(t.strftime('%Y-%m-%d') if k == 'date' else t.strftime(rng.choice(['%Y-%m-%dT%H:%M:%S', '%Y-%m-%d %H:%M:%S'])))
         else:
             while True:
                 toks, seps = gen_pattern(rng)
@@ -245,12 +259,53 @@ def load_table(tb, workdir):
         import warnings
         with warnings.catch_warnings():
             warnings.simplefilter('ignore')      # pandas: fallback to the python engine for multi-byte separators
-            return csv2pandas(csvp, mdpath=mdp, verbosity=0)
+            df = csv2pandas(csvp, mdpath=mdp, verbosity=0)
+            df2 = None
+            if 'tables' not in md and tb['header'] and not any('titles' in c for c in tb['cols']):
+                import pandas as pd
+                from tdda.serial.pandasio import gen_pandas_kwargs
+                try:
+                    df2 = pd.read_csv(csvp, **gen_pandas_kwargs(mdp))
+                except Exception as e:
+                    df2 = e
+            tb['_kwargs_frame'] = df2
+            return df
     finally:
         shutil.rmtree(d, ignore_errors=True)
 
 
 EXPECT_DTYPE = {'boolean': 'boolean', 'integer': 'Int64', 'number': 'float64', 'string': 'string'}
+
+
+def fmt_of(c):
+    return c['datatype']['format'] if isinstance(c['datatype'], dict) else 'no format: ISO 8601'
+
+
+def check_kwargs_dates(tb, df2):
+    """the frame pandas.read_csv gives with gen_pandas_kwargs(metadata): declared date / datetime columns are parsed
+    with their OWN formats (the other types are csv2pandas's business)"""
+    import pandas as pd
+    for i, c in enumerate(tb['cols']):
+        if tb['kinds'][i] not in ('date', 'datetime'):
+            continue
+        nm = c['name']
+        if nm not in df2.columns:
+            return 'read_csv with the generated arguments: no column %r (columns %r)' % (nm, list(df2.columns))
+        s = df2[nm]
+        if all(v is None for v in tb['data'][i]):
+            continue
+        if not str(s.dtype).startswith('datetime64'):
+            return 'read_csv with the generated arguments: column %r declared %s (%s) loaded as dtype %s' % (
+                nm, tb['kinds'][i], fmt_of(c), s.dtype)
+        for r, want in enumerate(tb['data'][i]):
+            got = s.iloc[r]
+            if want is None:
+                if not pd.isnull(got):
+                    return 'read_csv with the generated arguments: column %r row %d: expected null, got %r' % (nm, r, got)
+            elif pd.isnull(got) or pd.Timestamp(want) != got:
+                return 'read_csv with the generated arguments: column %r (%s) row %d: wrote %r (%s), read %r' % (
+                    nm, fmt_of(c), r, want, tb['texts'][i][r], got)
+    return None
 
 
 def check_table(tb, df):
@@ -269,7 +324,7 @@ def check_table(tb, df):
                 return 'column %r declared %s loaded as dtype %s' % (c['name'], kind, s.dtype)
         elif not str(s.dtype).startswith('datetime64'):
             return 'column %r declared %s (%s) loaded as dtype %s' % (
-                c['name'], kind, c['datatype']['format'], s.dtype)
+                c['name'], kind, fmt_of(c), s.dtype)
         for r, want in enumerate(tb['data'][i]):
             got = s.iloc[r]
             if want is None:
@@ -281,7 +336,7 @@ def check_table(tb, df):
             if kind in ('date', 'datetime'):
                 if pd.Timestamp(want) != got:
                     return 'column %r (%s) row %d: wrote %r (%s), read %r' % (
-                        c['name'], c['datatype']['format'], r, want, tb['texts'][i][r], got)
+                        c['name'], fmt_of(c), r, want, tb['texts'][i][r], got)
             elif kind == 'boolean':
                 if bool(got) != want:
                     return 'column %r row %d: expected %r, got %r' % (c['name'], r, want, got)
@@ -367,6 +422,11 @@ def run(ctx):
         try:
             df = load_table(tb, work)
             msg = check_table(tb, df)
+            df2 = tb.pop('_kwargs_frame', None)
+            if msg is None and df2 is not None:
+                msg = ('read_csv with the generated arguments raised %s: %s' % (type(df2).__name__, str(df2)[:200])
+                       if isinstance(df2, Exception) else check_kwargs_dates(tb, df2))
+                ctx.bump('B.kwargs_path')
         except Exception as e:
             msg = 'csv2pandas raised %s: %s' % (type(e).__name__, str(e)[:300])
         if msg:
